@@ -142,6 +142,7 @@ type instr struct {
 	// curFunc is the innermost function (declaration or literal) around the statements
 	// being instrumented: variables declared outside a literal are captured by it.
 	curFunc ast.Node
+	rangeN  int
 }
 
 // notGoroutineSafe lists library types whose methods must not be called concurrently on
@@ -380,6 +381,42 @@ func (x *instr) walk(f *ast.File) {
 			if v.Body != nil {
 				x.ins = append(x.ins, insertion{off: x.off(v.Body.Lbrace) + 1, text: fmt.Sprintf(" simrt.Step(%q); ", x.site(v.Pos()))})
 				x.st.Sites++
+			}
+		case *ast.RangeStmt:
+			// range over a map: Go randomises the order per statement; with pre-emption points in
+			// the body that order would leak into the schedule. Iterate over simrt.MapKeys
+			// (sorted, rotated by a plan-determined amount) instead.
+			if tv, ok := info.Types[v.X]; ok && simple(v.X) && v.Body != nil {
+				if _, isMap := tv.Type.Underlying().(*types.Map); isMap {
+					x.rangeN++
+					mk := fmt.Sprintf("simMapKey%d", x.rangeN)
+					m := x.text(v.X)
+					tok := ":="
+					if v.Tok == token.ASSIGN {
+						tok = "="
+					}
+					hdr := fmt.Sprintf("for _, %s := range simrt.MapKeys(%s) {", mk, m)
+					named := func(e ast.Expr) string {
+						if e == nil {
+							return ""
+						}
+						if id, ok := e.(*ast.Ident); ok && id.Name == "_" {
+							return ""
+						}
+						return x.text(e)
+					}
+					if kname := named(v.Key); kname != "" {
+						hdr += fmt.Sprintf(" %s %s %s;", kname, tok, mk)
+					}
+					if vname := named(v.Value); vname != "" {
+						hdr += fmt.Sprintf(" %s %s %s[%s];", vname, tok, m, mk)
+					}
+					if named(v.Key) == "" && named(v.Value) == "" {
+						hdr += fmt.Sprintf(" _ = %s;", mk)
+					}
+					x.rep = append(x.rep, replacement{from: x.off(v.For), to: x.off(v.Body.Lbrace) + 1, text: hdr})
+					x.st.Sites++
+				}
 			}
 		case *ast.BlockStmt:
 			x.block(v.List)
